@@ -78,6 +78,23 @@ def run(chk):
         specs.append({'buf': buf, 'body': body, 'ctype': ctype, 'what': 'forms+files', 'chunked': rng.random() < 0.4, 'seed': rng.randrange(10 ** 9),
                       'in_thread': rng.random() < 0.2})
         metas.append((b, fs, body, buf, ctype))
+    # uploads far larger than the in-memory threshold, followed by further parts: file content is spooled, never counted
+    # against the budget of the text fields after it
+    for i in range(300 if thorough else 40):
+        b = rng.choice(boundaries[:3])
+        fs = []
+        for j in range(rng.randint(2, 5)):
+            if j % 2 == 0:
+                fs.append({'name': 'up%d' % j, 'filename': 'big%d.bin' % j, 'ctype': 'application/octet-stream',
+                           'data': mplib.nasty_bytes(rng, rng.choice([800, 1500, 3000, 6000]), b)})
+            else:
+                fs.append({'name': 'note%d' % j, 'value': 'after the upload %d' % i})
+        body = mplib.encode_form(fs, b)
+        buf = rng.choice([600, 700, 900])
+        ctype = 'multipart/form-data; boundary=' + quote_boundary(rng, b)
+        specs.append({'buf': buf, 'body': body, 'ctype': ctype, 'what': 'forms+files', 'chunked': rng.random() < 0.4, 'seed': rng.randrange(10 ** 9),
+                      'in_thread': False})
+        metas.append((b, fs, body, buf, ctype))
     for (b, fs, body, buf, ctype), res in zip(metas, fl.post_batch(specs, time_limit=10.0)):
         t = fl.to_trace(body, buf, 'roundtrip', fs, res, full=not res['hang'])
         by_b.setdefault(b, []).append((t, {'ctype': ctype, 'buf': buf, 'fields': fs}))
